@@ -647,7 +647,7 @@ def m3(ctx, al, count, maxlen, maxblk):
             m3_dft(ctx, al, rng, recs, meta, maxblk)
     if len(recs) < count:
         raise tlc.MachineryError("C12 M3: only %d of %d records could be generated" % (len(recs), count))
-    bad = tracecheck.run_records(ctx, "FreqRespTrace", {"MaxLen": maxlen, "Cases": "<<>>"}, recs,
+    bad = tracecheck.run_records(ctx, "FreqRespTrace", {"MaxLen": maxlen, "Cases": "{}"}, recs,
                                  what="C12 recorded freq_response / filtering / dft observations", chunk=500)
     ctx.traces += len(recs) - len(bad)
     kinds = {}
